@@ -9,7 +9,9 @@ from vf.simk.world import World, Mapping, PAGESIZE, SMAPS_KEYS
 
 ID = "C13"
 LEVEL = "exploration"
-PATHS = [b"", b"/lib/a.so", b"/lib/a.so", b"/tmp/a b", b"/x:y", b"/tmp/z (deleted)", b"[heap]", b"/lit (deleted)", b"/p\xff", b"/srv/a  b", b"/srv/a b", b"/srv/t\tb"]
+PATHS = [b"", b"/lib/a.so", b"/lib/a.so", b"/tmp/a b", b"/x:y", b"/tmp/z (deleted)", b"[heap]", b"/lit (deleted)", b"/p\xff", b"/srv/a  b", b"/srv/a b", b"/srv/t\tb",
+         # unlinked files whose own name ends in letters of the " (deleted)" marker
+         b"/usr/bin/sed (deleted)", b"/tmp/deleted (deleted)"]
 BOUND = [0, 1, 2 ** 31 - 1, 2 ** 32, 2 ** 40, 2 ** 52]
 FIELDS = ["rss", "size", "pss", "shared_clean", "shared_dirty", "private_clean", "private_dirty", "referenced", "anonymous", "swap"]
 KEY_OF = {"rss": "Rss", "size": "Size", "pss": "Pss", "shared_clean": "Shared_Clean", "shared_dirty": "Shared_Dirty",
@@ -87,6 +89,8 @@ def run_case(case, st):
             psutil._pslinux.HAS_PROC_SMAPS_ROLLUP = False
         elif mode == "rollup-enoent":
             p.rollup = False
+        elif mode == "rollup-esrch-read":
+            p.rollup = "esrch-read"
         uss, pss, swap, rows, grouped = ref(w, p.maps)
         got = outcome(pr.memory_full_info)
         if got[0] != "ok" or (got[1].uss, got[1].pss, got[1].swap) != (uss, pss, swap) or got[1].rss != 212 * PAGESIZE:
@@ -153,7 +157,7 @@ def build_cases(thorough):
         combos += list(itertools.product(range(len(plist)), repeat=n))
     for combo in combos:
         paths = [plist[i] for i in combo]
-        for mode in ("rollup", "rollup-enoent", "norollup-kernel"):
+        for mode in ("rollup", "rollup-enoent", "norollup-kernel", "rollup-esrch-read"):
             cases.append(("maps", paths, 1, (), mode))
     # optional lines: every subset, on a fixed 2-mapping list
     for r in range(len(OPTS) + 1):
